@@ -1,0 +1,70 @@
+//go:build verif
+
+package bridgesync
+
+import (
+	"context"
+	"database/sql"
+
+	"github.com/agglayer/aggkit/log"
+	"github.com/agglayer/aggkit/sync"
+	aggkittypes "github.com/agglayer/aggkit/types"
+	"github.com/ethereum/go-ethereum/common"
+)
+
+// This file is only compiled with the `verif` build tag. It adds entry points used by the
+// runtime-verification harness (/verif) and does not change any existing behaviour.
+
+// VerifProcessor is the method set of the unexported processor that the sync driver needs.
+type VerifProcessor = *processor
+
+// VerifNewBridgeSync builds a BridgeSync facade around a real processor (real SQLite store),
+// without downloader and driver.
+func VerifNewBridgeSync(dbPath, name string, originNetwork uint32) (*BridgeSync, error) {
+	p, err := newProcessor(dbPath, name, log.WithFields("module", name))
+	if err != nil {
+		return nil, err
+	}
+	return &BridgeSync{processor: p, originNetwork: originNetwork}, nil
+}
+
+// VerifProcessBlock calls the real processor.ProcessBlock
+func (s *BridgeSync) VerifProcessBlock(ctx context.Context, block sync.Block) error {
+	return s.processor.ProcessBlock(ctx, block)
+}
+
+// VerifReorg calls the real processor.Reorg
+func (s *BridgeSync) VerifReorg(ctx context.Context, firstReorgedBlock uint64) error {
+	return s.processor.Reorg(ctx, firstReorgedBlock)
+}
+
+// VerifProcessor returns the real processor (usable as the processor of a sync.EVMDriver)
+func (s *BridgeSync) VerifProcessor() VerifProcessor {
+	return s.processor
+}
+
+// VerifDB returns the database handle of the processor
+func (s *BridgeSync) VerifDB() *sql.DB {
+	return s.processor.db
+}
+
+// VerifIsHalted reports the halted flag of the processor
+func (s *BridgeSync) VerifIsHalted() bool {
+	return s.processor.isHalted()
+}
+
+// VerifSetClaimCalldata runs the real trace search + calldata decoding on the given claim
+func VerifSetClaimCalldata(client aggkittypes.RPCClienter, bridge common.Address,
+	txHash common.Hash, c *Claim) error {
+	return c.setClaimCalldata(client, bridge, txHash, log.WithFields("module", "verif"))
+}
+
+// VerifExtractCall runs the real extractCall and returns (from, input) of the call found
+func VerifExtractCall(client aggkittypes.RPCClienter, bridge common.Address,
+	txHash common.Hash) (common.Address, []byte, error) {
+	c, err := extractCall(client, bridge, txHash, log.WithFields("module", "verif"))
+	if err != nil {
+		return common.Address{}, nil, err
+	}
+	return c.From, c.Input, nil
+}
